@@ -183,59 +183,61 @@ theorem data_roundtrip (c : Crcs) (p : Payload) (hp : Built c p) (cc : Nat) (hcc
     obtain ⟨dbi, i1, i2, i3⟩ := bptc_path dtPIHeader (by decide) (by decide) (by decide) _ hl
     have hpe : p = PiHeader.init c.pi p.data := by
       cases p with | mk d cr => simp only [PiHeader.init, PiHeader.mk.injEq, true_and]; exact hp.2.2
-    refine key _ dbi _ (by decide) i1 i2 i3 ?_ rfl rfl
-    simp only [Payload.dataType, Payload.bits, extractData]
-    rw [if_neg (by decide), if_neg (by decide), if_pos rfl]
-    rw [hpe, PiHeader.dec_enc c.pi _ hp.2.1]; rfl
+    refine key _ dbi _ (show eDataTypes.defined dtPIHeader = true by decide) i1 i2 i3 ?_ rfl rfl
+    have hd : PiHeader.dec c.pi p.enc = .ok p := by
+      conv => lhs; rw [hpe]
+      rw [PiHeader.dec_enc c.pi _ hp.2.1, ← hpe]
+    simp (config := { decide := true }) only [Payload.dataType, Payload.bits, extractData, ↓reduceIte, hd]
+    rfl
   | voiceLcHeader p =>
     have hl : (FullLc.enc p).length = 96 := by rw [FullLc.enc_length p hp.1, hp.2]
     obtain ⟨dbi, i1, i2, i3⟩ := bptc_path dtVoiceLCHeader (by decide) (by decide) (by decide) _ hl
-    refine key _ dbi _ (by decide) i1 i2 i3 ?_ rfl rfl
-    simp only [Payload.dataType, Payload.bits, extractData]
-    rw [if_neg (by decide), if_pos rfl, FullLc.dec_enc p hp.1]; rfl
+    refine key _ dbi _ (show eDataTypes.defined dtVoiceLCHeader = true by decide) i1 i2 i3 ?_ rfl rfl
+    simp (config := { decide := true }) only [Payload.dataType, Payload.bits, extractData, ↓reduceIte,
+      FullLc.dec_enc p hp.1]
+    rfl
   | terminatorWithLc p =>
     have hl : (FullLc.enc p).length = 96 := by rw [FullLc.enc_length p hp.1, hp.2]
     obtain ⟨dbi, i1, i2, i3⟩ := bptc_path dtTerminatorWithLC (by decide) (by decide) (by decide) _ hl
-    refine key _ dbi _ (by decide) i1 i2 i3 ?_ rfl rfl
-    simp only [Payload.dataType, Payload.bits, extractData]
-    rw [if_neg (by decide), if_neg (by decide), if_neg (by decide), if_pos rfl, FullLc.dec_enc p hp.1]; rfl
+    refine key _ dbi _ (show eDataTypes.defined dtTerminatorWithLC = true by decide) i1 i2 i3 ?_ rfl rfl
+    simp (config := { decide := true }) only [Payload.dataType, Payload.bits, extractData, ↓reduceIte,
+      FullLc.dec_enc p hp.1]
+    rfl
   | csbk p =>
     have hl : (Csbk.enc p).length = 96 := Csbk.enc_length p hp.1
     obtain ⟨dbi, i1, i2, i3⟩ := bptc_path dtCSBK (by decide) (by decide) (by decide) _ hl
-    refine key _ dbi _ (by decide) i1 i2 i3 ?_ rfl rfl
-    simp only [Payload.dataType, Payload.bits, extractData]
-    rw [if_pos rfl, Csbk.dec_enc c.csbk p hp.1, hp.2]; rfl
+    refine key _ dbi _ (show eDataTypes.defined dtCSBK = true by decide) i1 i2 i3 ?_ rfl rfl
+    simp (config := { decide := true }) only [Payload.dataType, Payload.bits, extractData, ↓reduceIte,
+      Csbk.dec_enc c.csbk p hp.1, hp.2]
+    rfl
   | dataHeader p =>
     have hl : (DataHeader.enc p).length = 96 := DataHeader.enc_length p hp.1
     obtain ⟨dbi, i1, i2, i3⟩ := bptc_path dtDataHeader (by decide) (by decide) (by decide) _ hl
-    refine key _ dbi _ (by decide) i1 i2 i3 ?_ rfl rfl
-    simp only [Payload.dataType, Payload.bits, extractData]
-    rw [if_neg (by decide), if_neg (by decide), if_neg (by decide), if_neg (by decide), if_pos rfl,
-      DataHeader.dec_enc c.dh p hp.1, hp.2]; rfl
+    refine key _ dbi _ (show eDataTypes.defined dtDataHeader = true by decide) i1 i2 i3 ?_ rfl rfl
+    simp (config := { decide := true }) only [Payload.dataType, Payload.bits, extractData, ↓reduceIte,
+      DataHeader.dec_enc c.dh p hp.1, hp.2]
+    rfl
   | rate12 p =>
     have hl : (RateData.enc rate12 p).length = 96 := rate_enc_len rate12 (by simp) c.r12 p hp
     obtain ⟨dbi, i1, i2, i3⟩ := bptc_path dtOfRate12 (by decide) (by decide) (by decide) _ hl
     obtain ⟨v1, v2⟩ := rate_view rate12 (by simp) c.r12 _ hl
-    refine key _ dbi _ (by decide) i1 i2 i3 ?_ rfl v2
-    simp only [Payload.dataType, Payload.bits, extractData]
-    rw [if_neg (by decide), if_neg (by decide), if_neg (by decide), if_neg (by decide), if_neg (by decide),
-      if_neg (by decide), if_pos (by decide), v1]; rfl
+    refine key _ dbi _ (show eDataTypes.defined dtOfRate12 = true by decide) i1 i2 i3 ?_ rfl v2
+    simp (config := { decide := true }) only [Payload.dataType, Payload.bits, extractData, ↓reduceIte, v1]
+    rfl
   | rate34 p =>
     have hl : (RateData.enc rate34 p).length = 144 := rate_enc_len rate34 (by simp) c.r34 p hp
     obtain ⟨dbi, i1, i2, i3⟩ := trellis_path _ hl
     obtain ⟨v1, v2⟩ := rate_view rate34 (by simp) c.r34 _ hl
-    refine key _ dbi _ (by decide) i1 i2 i3 ?_ rfl v2
-    simp only [Payload.dataType, Payload.bits, extractData]
-    rw [if_neg (by decide), if_neg (by decide), if_neg (by decide), if_neg (by decide), if_neg (by decide),
-      if_pos (by decide), v1]; rfl
+    refine key _ dbi _ (show eDataTypes.defined dtOfRate34 = true by decide) i1 i2 i3 ?_ rfl v2
+    simp (config := { decide := true }) only [Payload.dataType, Payload.bits, extractData, ↓reduceIte, v1]
+    rfl
   | rate1 p =>
     have hl : (RateData.enc rate1 p).length = 192 := rate_enc_len rate1 (by simp) c.r1 p hp
     obtain ⟨dbi, i1, i2, i3⟩ := rate1_path _ hl
     obtain ⟨v1, v2⟩ := rate_view rate1 (by simp) c.r1 _ hl
-    refine key _ dbi _ (by decide) i1 i2 i3 ?_ rfl v2
-    simp only [Payload.dataType, Payload.bits, extractData]
-    rw [if_neg (by decide), if_neg (by decide), if_neg (by decide), if_neg (by decide), if_neg (by decide),
-      if_neg (by decide), if_neg (by decide), if_pos (by decide), v1]; rfl
+    refine key _ dbi _ (show eDataTypes.defined dtOfRate1 = true by decide) i1 i2 i3 ?_ rfl v2
+    simp (config := { decide := true }) only [Payload.dataType, Payload.bits, extractData, ↓reduceIte, v1]
+    rfl
 
 /-- the fields of a rate-coded block are recovered from the parsed view by `convert(original type)` -/
 theorem rate_convert (cfg : RateCfg) (hc : cfg = rate12 ∨ cfg = rate34 ∨ cfg = rate1) (f9 : Bytes → Nat → Nat → Nat)
